@@ -66,6 +66,7 @@ def loc(fcp: "ref:FcpV2", t: "ref:Type", g: "seq[int]", f: "seq[int]", p: "int",
     requires(starts(fcp, t, f, p, v))
     requires(p + len(wire(fcp, t, v)) <= len(g))
     ensures(starts(fcp, t, g, p, v))
+    option("opaque", ["wf_struct", "starts_struct", "wire_struct"])
     if isinstance(t, UnsignedType) or isinstance(t, SignedType):
         val_prefix(g, f, p, num_width(t))
     elif isinstance(t, FloatType):
